@@ -5,7 +5,8 @@ pub fn status_of(code: i64) -> ClockStatus {
     match code { 1 => ClockStatus::Synchronized, 2 => ClockStatus::FreeRunning, _ => ClockStatus::Unknown }
 }
 pub fn status_code(s: ClockStatus) -> i64 {
-    match s { ClockStatus::Unknown => 0, ClockStatus::Synchronized => 1, ClockStatus::FreeRunning => 2 }
+    #[allow(unreachable_patterns)]
+    match s { ClockStatus::Unknown => 0, ClockStatus::Synchronized => 1, ClockStatus::FreeRunning => 2, _ => 99 }
 }
 pub fn ts(sec: i64, nsec: i64) -> libc::timespec { libc::timespec { tv_sec: sec, tv_nsec: nsec } }
 
@@ -34,6 +35,9 @@ pub fn shm_err_text(e: &ShmError) -> String {
         ShmError::SegmentNotInitialized => "err notinit".into(),
         ShmError::SegmentMalformed => "err malformed".into(),
         ShmError::CausalityBreach => "err causality".into(),
+        // a kind this harness does not know (a later revision of the enum): reported by its Debug name
+        #[allow(unreachable_patterns)]
+        other => format!("err other {:?}", other).replace(' ', "_").replacen("err_other_", "err other ", 1),
     }
 }
 
